@@ -1,5 +1,7 @@
 import MobiusModel.Tree
+import MobiusModel.TreeAlias
 import MobiusModel.Generated.Consts
+import MobiusModel.Generated.FormatCalls
 /-!
   C10 — Folder transfers reproduce the tree, item by item.
 
@@ -285,6 +287,85 @@ theorem download_after_upload_same_tree (t t' : Node) (acts : List Action)
   rw [downloadItems_headers _ _ hacts, downloadItems_headers _ _ (by omega)]
   exact ⟨h1, h2⟩
 
+-- ---------------------------------------------------------------- wave d: aliases carry their link string
+
+/-- **An absolute link string leads to the same place wherever the alias is stored; a relative one is resolved from
+    the folder that holds the alias** — the definition has no other input (no working directory). -/
+theorem alias_resolution (d d' : List Bytes) (l : LinkStr) :
+    (l.isAbs = true → resolveAt d l = resolveAt d' l) ∧
+    (l.isAbs = false → resolveAt d l = normalize d l.comps) ∧
+    (l.isAbs = false → Plain l.comps → resolveAt d l = d ++ l.comps) :=
+  ⟨resolveAt_abs d d' l, resolveAt_rel d l, resolveAt_rel_plain d l⟩
+
+/-- **The relative link string from a folder to a target (`ln -s` / `filepath.Rel`), resolved from that folder, is the
+    target** — for every folder and every target. -/
+theorem relative_alias_reaches_its_target (d t : List Bytes) (ht : Plain t) : resolveAt d (relOf d t) = t :=
+  resolveAt_relOf d t ht
+
+/-- `../x/real.txt` stored in `/srv/Files/tree/sub` leads to `/srv/Files/tree/x/real.txt`; the same string resolved
+    from another directory (a server's working directory, say `/opt/mobius`) leads elsewhere — the defect class. -/
+example :
+    resolveAt [[115, 114, 118], [70], [116], [115, 117, 98]] ⟨false, [dotdot, [120], [114]]⟩ = [[115, 114, 118], [70], [116], [120], [114]] ∧
+    resolveAt [[111, 112, 116], [109]] ⟨false, [dotdot, [120], [114]]⟩ = [[111, 112, 116], [120], [114]] ∧
+    relOf [[115, 114, 118], [70], [116], [115, 117, 98]] [[115, 114, 118], [70], [116], [120], [114]] = ⟨false, [dotdot, [120], [114]]⟩ := by decide
+
+/-- **Whatever it leads to, an alias is exactly one item** under its own name at its own place in the walk. -/
+theorem alias_is_one_item (what : Option Obj) (n ty cr : Bytes) (p : List Bytes) :
+    ∃ f, (aliasNode what n ty cr).walk p = [⟨p, n, f⟩] :=
+  aliasNode_walk what n ty cr p
+
+/-- **The per-item size prefix covers aliases**: an alias leading to a regular file holding `data` is sent — on
+    "send" — as size prefix ++ flattened-file header ++ exactly `data`, the prefix announcing exactly the bytes that
+    follow; on "resume k" as prefix ++ header ++ `data.drop k`, again with an exact prefix. -/
+theorem alias_of_file_item (n data mtime ty cr : Bytes) (p : List Bytes) (k : Nat)
+    (hwf : (aliasFile n data mtime ty cr).WF) (hk : k ≤ data.length) :
+    let f := aliasFile n data mtime ty cr
+    let e : Entry := ⟨p, n, some f⟩
+    (aliasNode (some (.file data mtime)) n ty cr).walk p = [e] ∧
+    (itemOut e .send).body = be32 (f.hdrLen + data.length) ++ (f.header 0 ++ data) ∧
+    ((itemOut e .send).body.drop 4).length = rd32 (itemOut e .send).body ∧
+    (itemOut e (.resume k)).body = be32 (f.hdrLen + (data.length - k)) ++ (f.header 0 ++ data.drop k) ∧
+    ((itemOut e (.resume k)).body.drop 4).length = rd32 (itemOut e (.resume k)).body := by
+  intro f e
+  have hfc : f.forkCount = 2 := rfl
+  have hrs : f.rsrcSize = 0 := rfl
+  have hr : f.rsrc = none := rfl
+  have hd : f.data = data := rfl
+  obtain ⟨hb, _, _⟩ := send_bytes e f rfl hwf
+  obtain ⟨rb, _, rl⟩ := resume_bytes e f k rfl hwf (by rw [hd]; exact hk)
+  refine ⟨walk_file _ p, ?_, ((send_prefix_vs_bytes e f rfl hwf).1 hfc hr), ?_, rl hr⟩
+  · rw [hb, hfc, hrs, hd]; simp
+  · rw [rb, hrs, hd]; simp
+
+/-- Non-vacuity: an alias `l.txt` of a 5-byte file. -/
+example : (aliasFile [108, 46, 116, 120, 116] [1, 2, 3, 4, 5] (List.replicate 8 0) [84, 69, 88, 84] [116, 116, 120, 116]).WF := by decide
+
+/-- A tree with aliases, elaborated folder by folder: `r/{sub/{up → ../a, abs → /w/r/a, gone → nope}, a}` stored at `/w`. -/
+example :
+    let w : List Bytes → Option Obj := fun p => if p = [[119], [114], [97]] then some (.file [7, 7, 7] (List.replicate 8 0)) else if p = [[119], [114]] then some .dir else none
+    let t : ANode := .dir [114] [.dir [115] [.alias [117] ⟨false, [dotdot, [97]]⟩ [84, 69, 88, 84] [84, 84, 88, 84],
+      .alias [98] ⟨true, [[119], [114], [97]]⟩ [84, 69, 88, 84] [84, 84, 88, 84], .alias [103] ⟨false, [[110]]⟩ [84, 69, 88, 84] [84, 84, 88, 84],
+      .alias [100] ⟨false, [dotdot, dotdot, [114]]⟩ [84, 69, 88, 84] [84, 84, 88, 84]], .file { name := [97], data := [7, 7, 7] }]
+    ((t.elab w [[119]]).items.map fun e => (e.path, e.file.map (·.data))) =
+      [([[97]], some [7, 7, 7]), ([[115]], none), ([[115], [98]], some [7, 7, 7]), ([[115], [100]], none), ([[115], [103]], some []), ([[115], [117]], some [7, 7, 7])] := by
+  decide
+
+-- ---------------------------------------------------------------- wave d: side files are named after the item only
+
+/-- **The side files of an item live in the item's own folder under `<prefix><name>`, whatever bytes the item's name
+    holds** (`%` included): `fmt.Sprintf` with the constant templates `.info_%s` / `.rsrc_%s` copies its argument
+    verbatim — the folder is joined on afterwards and never passes through a format string. -/
+theorem side_file_path (dir : List Bytes) (pre name : Bytes) (h : (37 : UInt8) ∉ pre) :
+    sidePath dir pre name = some (dir ++ [pre ++ name]) := by
+  simp [sidePath, sprintfS_prefix_template pre name h]
+
+/-- `.info_` / `.rsrc_` hold no `%`; an item `50% off` in a folder `100%` has its information fork at `100%/.info_50% off`.
+    Formatting the JOINED path instead (`Sprintf(Join(dir, template), name)`) does not even produce a path: -/
+example :
+    sidePath [[49, 48, 48, 37]] [46, 105, 110, 102, 111, 95] [53, 48, 37, 32, 111, 102, 102] =
+      some [[49, 48, 48, 37], [46, 105, 110, 102, 111, 95, 53, 48, 37, 32, 111, 102, 102]] ∧
+    sprintfS ([49, 48, 48, 37, 47] ++ [46, 105, 110, 102, 111, 95, 37, 115]) [[120]] = none := by decide
+
 /-! Obligations over the constants regenerated from /repo's source on every run. -/
 
 /-- The action codes of the item dialogue (`Answer.bytes`, `Action`) and the transfer types. -/
@@ -295,6 +376,21 @@ theorem generated_folder_actions :
     Generated.miscConsts.lookup "FolderDownload" = some 2 ∧
     Generated.miscConsts.lookup "FolderUpload" = some 3 ∧
     Generated.stringConsts.lookup "IncompleteFileSuffix" = some ".incomplete" := by decide
+
+/-- The side-file templates are `.info_%s` / `.rsrc_%s`: a `%`-free prefix followed by the single verb `%s` — the shape
+    `side_file_path` is about (prefixes `.info_`, `.rsrc_`). -/
+theorem generated_side_file_templates :
+    (Generated.stringConsts.lookup "InfoForkNameTemplate").map (fun s => s.toList.map Char.toNat) = some ([46, 105, 110, 102, 111, 95] ++ [37, 115]) ∧
+    (Generated.stringConsts.lookup "RsrcForkNameTemplate").map (fun s => s.toList.map Char.toNat) = some ([46, 114, 115, 114, 99, 95] ++ [37, 115]) ∧
+    (37 : UInt8) ∉ ([46, 105, 110, 102, 111, 95] : Bytes) ∧ (37 : UInt8) ∉ ([46, 114, 115, 114, 99, 95] : Bytes) := by decide
+
+/-- Every format string handed to a `fmt` formatting function in hotline/ and internal/mobius/ is a compile-time
+    constant — no path or client-supplied name is ever interpreted as a format — with the one exception of the
+    configured news template in `HandleTranOldPostNews` (not a file path; C10 does not depend on it). -/
+theorem generated_format_strings_are_constants :
+    ∀ e ∈ Generated.nonConstantFormats, e.2.1 = "HandleTranOldPostNews" := by decide
+
+example : Generated.formatCallCount > 50 := by decide
 
 -- ---------------------------------------------------------------- non-vacuity
 
